@@ -195,7 +195,7 @@ def validate(ctx, traces, label):
             done[v[1]] = v[2]
     if not res.completed or len(done) != len(traces) or "Error:" in res.output:
         raise MachineryError(f"trace validation incomplete ({len(done)}/{len(traces)} verdicts)\n{res.output[-3000:]}")
-    findings, drift, clean = [], [], 0
+    by_sig, drift, clean = {}, [], 0
     for obj, rec in traces:
         fl = sorted(set(fails.get(obj["tid"], [])))
         if not any(cl != "placement" for (_, cl, _, _) in fl):
@@ -203,10 +203,13 @@ def validate(ctx, traces, label):
         for (step, clause, want, name) in fl:
             f = describe(rec, obj, step, clause, want, name)
             if clause == "placement":
-                drift.append(f.what)
-            else:
-                findings.append(f)
-    return findings, drift, clean
+                if len(drift) < 50:
+                    drift.append(f.what)
+            else:       # one finding per signature: the occurrence with the shortest history
+                old = by_sig.get(f.sig)
+                if old is None or len(f.replay["calls"]) < len(old.replay["calls"]):
+                    by_sig[f.sig] = f
+    return list(by_sig.values()), drift, clean
 
 
 def describe(rec: Recorder, obj, step, clause, want, name):
